@@ -5,6 +5,7 @@ Require Import Zrs.lib.RsPrelude Zrs.gen.Generated Zrs.model.Headers Zrs.model.B
 Require Import Zrs.proofs.C15_Frame Zrs.proofs.C02_Roundtrip Zrs.proofs.C02_Fastest.
 Require Import Zrs.model.FseDec Zrs.model.SeqSection Zrs.model.BlockEnc Zrs.proofs.C12_SeqStream Zrs.proofs.C02_Block.
 Require Import Zrs.model.Matcher Zrs.proofs.C06_Drain Zrs.proofs.C17_Matcher Zrs.proofs.C17_Shape Zrs.proofs.C02_Glue Zrs.proofs.C02_FastBlock.
+Require Import Zrs.model.HufDec Zrs.model.LitEnc Zrs.proofs.C02_Concrete.
 Open Scope Z_scope.
 
 (** level Uncompressed: every input, every fragmentation of the source reads, every block size up to 128 KiB, every
@@ -57,21 +58,24 @@ Proof. exact rle_content. Qed.
 Theorem C02_run_detection_is_exact : forall l, all_same l = true -> l = repeat_z (nth 0 l 0) (length l).
 Proof. exact all_same_repeat. Qed.
 
-(** level Fastest: the same conclusion for every block-level encoder that meets four obligations, stated with a
-    relation [Rel] between the encoder state and the decoder state it assumes: (1) an emitted compressed block decodes
-    to its input and keeps the states related, (2) a run sent as an RLE block keeps them related, (3) a block whose
-    compressed form is discarded for a raw block keeps them related (the obligation finding F5 violated), (4) the
-    per-frame reset relates to a new decoder.  These are hypotheses about compress_block, which is not modelled; each
-    run validates them on the emitted frames. *)
+(** level Fastest, abstractly: the same conclusion for every block-level encoder that meets four obligations, stated
+    with a relation [Rel] between the encoder state and the decoder state it assumes: (1) an emitted compressed block
+    decodes to its input and keeps the states related, (2) a run sent as an RLE block keeps them related, (3) a block
+    whose compressed form is discarded for a raw block keeps them related (the obligation finding F5 violated), (4) the
+    per-frame reset relates to a new decoder (for initial states satisfying [Cinit]).  Blocks are non-empty and at most
+    128 KiB.  The theorem below ([C02_fastest_roundtrip]) discharges all four for the modelled block encoder. *)
 Theorem C02_fastest_roundtrip_given_block_encoder : forall (cstate : Type) cblock cskip cfallback (Rel : cstate -> scratch -> Prop),
-  (forall cs sc blk body cs', Rel cs sc -> cblock cs blk = (body, cs') -> all_same blk = false ->
+  (forall cs sc blk body cs', Rel cs sc -> blk <> [] -> Z.of_nat (length blk) <= 131072 ->
+     cblock cs blk = (body, cs') -> all_same blk = false ->
      (length body < length blk)%nat -> Z.of_nat (length body) <= MAX_BLOCK_SIZE ->
      exists sc', decompress_block (Z.of_nat (length body)) sc body = ROk sc' /\ sc_content sc' = sc_content sc ++ blk /\ Rel cs' sc') ->
-  (forall cs sc blk, Rel cs sc -> all_same blk = true -> Rel (cskip cs blk) (sc_push_raw sc blk)) ->
-  (forall cs sc blk body cs', Rel cs sc -> cblock cs blk = (body, cs') -> Rel (cfallback cs') (sc_push_raw sc blk)) ->
-  forall creset, (forall cs w, Rel (creset cs) (scratch_new w)) ->
+  (forall cs sc blk, Rel cs sc -> blk <> [] -> Z.of_nat (length blk) <= 131072 ->
+     all_same blk = true -> Rel (cskip cs blk) (sc_push_raw sc blk)) ->
+  (forall cs sc blk body cs', Rel cs sc -> blk <> [] -> Z.of_nat (length blk) <= 131072 ->
+     cblock cs blk = (body, cs') -> Rel (cfallback cs') (sc_push_raw sc blk)) ->
+  forall creset (Cinit : cstate -> Prop), (forall cs w, Cinit cs -> Rel (creset cs) (scratch_new w)) ->
   forall slice wsize hash32 cs data script frame cs' r',
-  1 <= Z.of_nat slice <= 131072 -> 1 <= wsize <= 2 ^ 27 ->
+  Cinit cs -> 1 <= Z.of_nat slice <= 131072 -> 1 <= wsize <= 2 ^ 27 ->
   (forall h x, hash32 = Some h -> length (h x) = 4%nat) ->
   compress_frame cstate cblock cskip cfallback creset LFastest slice wsize hash32 cs
     {| rd_data := data; rd_script := script |} = ROk (frame, cs', r') ->
@@ -81,6 +85,49 @@ Theorem C02_fastest_roundtrip_given_block_encoder : forall (cstate : Type) cbloc
     buf_content s2 = data /\
     fr_checksum s2 = match hash32 with Some h => Some (le_val (h data)) | None => None end.
 Proof. exact fastest_roundtrip. Qed.
+
+(** level Fastest with the block encoder spelled out ([cblock], proofs/C02_Concrete.v): the built-in match finder model,
+    [compress_block]'s split of its report into one literal buffer and (literal length, match length, offset + 3)
+    triples, the sequences part (count, mode byte, three table descriptions, bit stream), and the literals section --
+    for every input, every fragmentation of the reads, every block size up to 128 KiB, every reuse history of the
+    compressor, with or without the checksum.  The only things left abstract are the two TABLE BUILDERS, and what is
+    assumed of them is decidable per block and evaluated on every block of every run:
+      O1  the normaliser [norm] yields, for the sequences of a block, three distributions meeting [section_hyps_b]
+          (normalised, within the format's limits, tables build and tile, every used code has states);
+      O2  the literals encoder [litenc] yields a header and payload that the decoder reads back as the literals
+          ([lit_ok]; raw literals always do -- [C02_raw_literals_meet_O2] -- and Huffman-coded literals do whenever the
+          table resolves the code words -- [C13_huffman_literals_section_decodes]), and remembers only a table the
+          decoder holds.
+    Everything else -- match finder, LZ execution, offset coding, bit streams, headers, block framing, checksum -- is
+    proved. *)
+Theorem C02_fastest_roundtrip : forall norm litenc,
+  (forall seqs, seqs <> [] -> forallb seq_range_b seqs = true -> Z.of_nat (length seqs) <= 98047 ->
+     let '(dl, do, dm) := norm seqs in section_hyps_b dl do dm seqs = true) ->
+  (forall o lits h, (forall t, o = Some t -> h = t) -> zlen lits <= MAX_BLOCK_SIZE ->
+     let '(hdr, payload, o') := litenc o lits in
+     exists ht', lit_ok h lits hdr payload ht' /\ (forall t, o' = Some t -> ht' = t)) ->
+  forall slice wsize hash32 cs data script frame cs' r',
+  Cinit cs -> 1 <= Z.of_nat slice <= 131072 -> 1 <= wsize <= 2 ^ 27 ->
+  (forall h x, hash32 = Some h -> length (h x) = 4%nat) ->
+  compress_frame cst (cblock norm litenc) cskip cfallback creset LFastest slice wsize hash32 cs
+    {| rd_data := data; rd_script := script |} = ROk (frame, cs', r') ->
+  exists d1 rest evs s1 d2 s2,
+    fdec_reset fdec_new frame = ROk (d1, rest, evs) /\ fd_state d1 = Some s1 /\
+    fdec_decode_blocks d1 rest SAll = ROk (d2, [], true) /\ fd_state d2 = Some s2 /\
+    buf_content s2 = data /\
+    fr_checksum s2 = match hash32 with Some h => Some (le_val (h data)) | None => None end.
+Proof. exact fastest_roundtrip_concrete. Qed.
+
+(** a fresh compressor (and every state reached from it) satisfies [Cinit] *)
+Example C02_new_compressor_is_initial : Cinit {| c_d := mgd_new (Z.to_nat 131072) 1; c_ht := None |}.
+Proof.
+  unfold Cinit. cbn [c_d]. destruct (mgd_new_inv (Z.to_nat 131072) 1) as (HI & Hm & _). split; [exact HI|]. rewrite Hm. lia.
+Qed.
+
+(** raw literals meet obligation O2 whatever table the decoder holds *)
+Theorem C02_raw_literals_meet_O2 : forall h lits, zlen lits <= MAX_BLOCK_SIZE ->
+  lit_ok h lits (raw_lit_header (zlen lits)) lits h.
+Proof. exact raw_lit_ok. Qed.
 
 (** a compressed block whose literals go out raw (what [compress_block] writes when a block has at most 1024 literals
     or a single literal value): literals header, literal bytes, sequence count, mode byte 0xA8, three table
@@ -131,6 +178,8 @@ Proof. exact fastest_step_raw_literals. Qed.
 Print Assumptions C02_fastest_block_step_with_raw_literals.
 Print Assumptions C02_raw_literal_block_decodes.
 Print Assumptions C02_fastest_roundtrip_given_block_encoder.
+Print Assumptions C02_fastest_roundtrip.
+Print Assumptions C02_raw_literals_meet_O2.
 Print Assumptions C02_uncompressed_roundtrip.
 Print Assumptions C02_blocks_independent_of_fragmentation.
 Print Assumptions C02_frame_is_header_then_blocks.
